@@ -65,7 +65,16 @@ import (
 	"golang.org/x/crypto/bcrypt"
 )
 
+// The two users. Two naming schemes (chosen by `reset`): plain names, or names that share their local
+// part -- staff "alice" and partner "alice@partner.example" are DIFFERENT keymaster users whenever the
+// operator's okta.username_filter_regexp does not strip every domain (anything keyed by a prefix, a
+// normalised or a truncated user name would confuse them).
 var c05Users = []string{"alice", "bob"}
+
+var c05NameSchemes = map[bool][]string{false: {"alice", "bob"}, true: {"alice", "alice@partner.example"}}
+
+// the operator's okta.username_filter_regexp in the shared-local-part scheme: only the staff domain is stripped
+var c05StaffFilter = regexp.MustCompile(`@corp\.example$`)
 
 const c05Password = "correct horse"
 
@@ -361,7 +370,7 @@ func c05Setup(t *testing.T) (*c05World, func()) {
 	if err != nil {
 		t.Fatal(err)
 	}
-	for _, u := range c05Users {
+	for _, u := range []string{"alice", "bob", "alice@partner.example"} {
 		h, err := bcrypt.GenerateFromPassword([]byte(c05Password), bcrypt.MinCost)
 		if err != nil {
 			t.Fatal(err)
@@ -440,7 +449,12 @@ func c05Setup(t *testing.T) (*c05World, func()) {
 	}
 }
 
-func (w *c05World) reset(f0, b0, f1, b1 int, oktaMode bool) {
+func (w *c05World) reset(f0, b0, f1, b1 int, oktaMode bool, sharedLocalPart bool) {
+	c05Users = c05NameSchemes[sharedLocalPart]
+	w.state.oktaUsernameFilterRE = nil
+	if oktaMode && sharedLocalPart {
+		w.state.oktaUsernameFilterRE = c05StaffFilter
+	}
 	atomic.StoreInt32(&c05FailSave, 0)
 	atomic.StoreInt32(&c05FailLoad, 0)
 	st := w.state
@@ -987,6 +1001,33 @@ func (w *c05World) exec(f []string) (string, []string, []string) {
 		}
 		c, ck, _ := serve(st.SendAuthDocumentHandler, w.form(paths.SendAuthDocument, f[1], "port", "12345", "token", tok))
 		return c, ck, ev
+	case f[0] == "totpenrol" && len(f) == 2:
+		// the user enrols a further TOTP device: GenerateNew, then ValidateNew with that device's code
+		c, ck, rr := serve(st.GenerateNewTOTP, w.form(totpGeneratNewPath, f[1]))
+		if c != "200" {
+			return c, ck, ev
+		}
+		var page struct{ TOTPSecret string }
+		if json.Unmarshal(rr.Body.Bytes(), &page) != nil || page.TOTPSecret == "" {
+			return "no-secret-in-page", nil, nil
+		}
+		code, err := totp.GenerateCode(page.TOTPSecret, time.Now())
+		if err != nil {
+			return "bad-secret", nil, nil
+		}
+		c, ck2, _ := serve(st.validateNewTOTP, w.form(totpValidateNewPath, f[1], "OTP", code))
+		return c, append(ck, ck2...), ev
+	case (f[0] == "totprename" || f[0] == "hwrename") && len(f) == 3:
+		uid, ok := uidOK(f[2])
+		if !ok {
+			return "bad-op", nil, nil
+		}
+		path, h := totpTokenManagementPath, st.totpTokenManagerHandler
+		if f[0] == "hwrename" {
+			path, h = u2fTokenManagementPath, st.u2fTokenManagerHandler
+		}
+		c, ck, _ := serve(h, w.form(path, f[1], "username", c05Users[uid], "index", "1", "action", "Update", "name", "renamed token"))
+		return c, ck, ev
 	case f[0] == "logout" && len(f) == 2:
 		c, ck, _ := serve(st.logoutHandler, w.form(logoutPath, f[1]))
 		return c, ck, ev
@@ -1055,7 +1096,7 @@ func TestVerifC05(t *testing.T) {
 			if rem := 30 - time.Now().Unix()%30; rem <= 4 {
 				time.Sleep(time.Duration(rem)*time.Second + 50*time.Millisecond)
 			}
-			w.reset(c05Atoi(f[1]), c05Atoi(f[2]), c05Atoi(f[3]), c05Atoi(f[4]), f[5] == "okta")
+			w.reset(c05Atoi(f[1]), c05Atoi(f[2]), c05Atoi(f[3]), c05Atoi(f[4]), strings.HasPrefix(f[5], "okta"), strings.HasSuffix(f[5], "@"))
 			started = true
 			io.emit("- - -")
 			continue
